@@ -1,6 +1,7 @@
 """helpers of the option-parsing family (model M4): generators of option specs / assignments / argv / sources,
 drivers of the real doit code paths, canonicalisation.  Used by harness/props/c16.py."""
 import io
+import json
 import os
 import sys
 import contextlib
@@ -479,6 +480,16 @@ def impl_command(case):
 INI_SAFE = set('abcdefghijklmnopqrstuvwxyzABCDEFGHIJKLMNOPQRSTUVWXYZ0123456789_,.+-')
 
 
+def toml_file_ok(case):
+    for lst in (case['ini'], case['glob']):
+        for k, c in lst:
+            if 'val' in c and c['val'] is None:
+                return False
+            if not all(ch.isalnum() or ch == '_' for ch in k):
+                return False
+    return True
+
+
 def ini_file_ok(case):
     for lst in (case['ini'], case['glob']):
         for k, c in lst:
@@ -556,6 +567,18 @@ def impl_main(case, workdir):
                     f.write('[GLOBAL]\n' + ''.join('%s = %s\n' % (k, c['raw']) for k, c in case['glob']))
                 f.write('[vcmd]\n' + ''.join('%s = %s\n' % (k, c['raw']) for k, c in case['ini']))
             kw = {'config_filenames': ('doit.cfg',)}
+        elif case['ini_mode'] == 'toml':
+            def tv(c):
+                v = c['raw'] if 'raw' in c else c['val']
+                if isinstance(v, bool):
+                    return 'true' if v else 'false'
+                if isinstance(v, list):
+                    return '[' + ', '.join(json.dumps(x) for x in v) + ']'
+                return json.dumps(v)
+            with open('pyproject.toml', 'w') as f:
+                f.write('[tool.doit]\n' + ''.join('%s = %s\n' % (k, tv(c)) for k, c in case['glob']))
+                f.write('[tool.doit.commands.vcmd]\n' + ''.join('%s = %s\n' % (k, tv(c)) for k, c in case['ini']))
+            kw = {'config_filenames': ('pyproject.toml',)}
         else:
             extra = {'vcmd': cfg_py(case['ini'])}
             if case['glob']:
